@@ -261,6 +261,7 @@ class MultiWcsProcessor(object):
 
     def _tile_parallel(self, pio, reproject_function, cli_progress, parallel, **kwargs):
         import multiprocessing as mp
+        from .par_util import any_worker_failed
 
         # Start up the workers
 
@@ -292,6 +293,9 @@ class MultiWcsProcessor(object):
 
         for w in workers:
             w.join()
+
+        if any_worker_failed(workers):
+            raise Exception("a worker process failed; see the traceback printed above")
 
 
 def _mp_tile_worker(queue, done_event, pio, reproject_function, kwargs):
